@@ -399,6 +399,9 @@ def intPoints (o : FOps) (f : Fn) (x0 : Rat) : Nat → Nat → PL → Except Sta
     let y ← getFin (f.eval x)
     intPoints o f x0 n (k + 1) (addPoint o pl x y)
 
+/-- conversion `int(q)` of an in-range double: truncation towards zero -/
+def truncInt (q : Rat) : Int := if q < 0 then -((-q).floor) else q.floor
+
 /-- `ConsiderIntegrality` -/
 def considerIntegrality (o : FOps) (f : Fn) (isInt usePeriod : Bool) (d : Dom) (pl : PL) : Except Status PL := do
   if isInt && !usePeriod then
@@ -407,44 +410,55 @@ def considerIntegrality (o : FOps) (f : Fn) (isInt usePeriod : Bool) (d : Dom) (
     let nf := fadd o (fsub o xN x0) 1
     -- `int(xN - x0 + 1)`: conversion of an out-of-range double to int is undefined behaviour
     if nf ≥ 2147483648 ∨ nf ≤ -2147483649 then throw .ubcast
-    let n : Int := if nf < 0 then -((-nf).floor) else nf.floor
+    let n : Int := truncInt nf
     if n ≤ (pl.length : Int) then intPoints o f x0 n.toNat 0 [] else pure pl
   else pure pl
+
+/-- the result record before any point is produced -/
+def res0 (d : Dom) : Res :=
+  { domOut := d, usePeriod := false, periodLength := 0, facLb := 0, facUb := 0, remLb := 0, remUb := 0, pl := [] }
+
+/-- `CheckDomainReturnFalseIfTrivial`, trivial case: a single point in the middle -/
+def trivialRes (o : FOps) (f : Fn) (d : Dom) : Except Status Res := do
+  let mid := fdiv o (fadd o d.lbx d.ubx) 2
+  let v ← getFin (f.eval mid)
+  pure { res0 d with pl := [(mid, v)] }
+
+/-- `InitPeriodic` -/
+def initPeriodic (o : FOps) (f : Fn) (d : Dom) : Except Status (Res × List Rat) :=
+  let len := fsub o f.perUb f.perLb
+  if len = 0 then throw .nonfinite
+  else match f.bps.head?, f.bps.getLast? with
+    | some b0, some bl =>
+      pure ({ res0 d with usePeriod := true, periodLength := len, remLb := b0, remUb := bl,
+                          facLb := ((fdiv o (fsub o d.lbx f.perLb) len).floor : Int),
+                          facUb := ((fdiv o (fsub o d.ubx f.perLb) len).ceil : Int) }, f.bps)
+    | _, _ => throw .oor
+
+/-- `InitNonPeriodic` -/
+def initNonPeriodic (o : FOps) (f : Fn) (d : Dom) : Except Status (Res × List Rat) :=
+  let b := bpsNonPeriodic o f d.lbx d.ubx
+  if b.any (fun x => x ≥ fltInf ∨ x ≤ -fltInf) then throw .nonfinite else pure (res0 d, b)
+
+/-- `InitSubintervalLoop`, the subinterval loop, `ConsiderIntegrality` -/
+def mainLoop (o : FOps) (f : Fn) (p : Params) (fuel : Nat) (d : Dom) (res1 : Res) (bps : List Rat) :
+    Except Status Res :=
+  match bps with
+  | [] => throw .oor
+  | x0 :: _ => do
+    let f0 ← getFin (f.eval x0)
+    let pl ← subintervals o f p.ubErr bps fuel bps.length 0 (addPoint o [] x0 f0)
+    let pl ← considerIntegrality o f p.isInt res1.usePeriod d pl
+    pure { res1 with pl := pl }
 
 /-- `BasicPLApproximator::Run()` -/
 def run (o : FOps) (f : Fn) (p : Params) (fuel : Nat) : Except Status Res := do
   let d ← clipDomain f p
-  let lbx := d.lbx
-  let ubx := d.ubx
-  let res0 : Res := { domOut := d, usePeriod := false, periodLength := 0, facLb := 0, facUb := 0,
-                      remLb := 0, remUb := 0, pl := [] }
-  -- CheckDomainReturnFalseIfTrivial
-  if fadd o ubx eps6 < lbx then throw .infeas
-  if fsub o ubx eps6 < lbx then
-    let mid := fdiv o (fadd o lbx ubx) 2
-    let v ← getFin (f.eval mid)
-    return { res0 with pl := [(mid, v)] }
-  -- InitPeriodic / InitNonPeriodic
-  let (res1, bps) ← if f.periodic then do
-      let len := fsub o f.perUb f.perLb
-      if len = 0 then throw .nonfinite
-      match f.bps.head?, f.bps.getLast? with
-      | some b0, some bl =>
-        pure ({ res0 with usePeriod := true, periodLength := len, remLb := b0, remUb := bl,
-                          facLb := ((fdiv o (fsub o lbx f.perLb) len).floor : Int),
-                          facUb := ((fdiv o (fsub o ubx f.perLb) len).ceil : Int) }, f.bps)
-      | _, _ => throw .oor
-    else do
-      let b := bpsNonPeriodic o f lbx ubx
-      if b.any (fun x => x ≥ fltInf ∨ x ≤ -fltInf) then throw .nonfinite
-      pure (res0, b)
-  -- InitSubintervalLoop
-  let x0 ← match bps.head? with | some b => pure b | none => throw .oor
-  let f0 ← getFin (f.eval x0)
-  let pl := addPoint o [] x0 f0
-  let pl ← subintervals o f p.ubErr bps fuel bps.length 0 pl
-  let pl ← considerIntegrality o f p.isInt res1.usePeriod d pl
-  pure { res1 with pl := pl }
+  if fadd o d.ubx eps6 < d.lbx then throw .infeas
+  else if fsub o d.ubx eps6 < d.lbx then trivialRes o f d
+  else do
+    let rb ← (if f.periodic then initPeriodic o f d else initNonPeriodic o f d)
+    mainLoop o f p fuel d rb.1 rb.2
 
 /-! ## validator of an output of the real code (core-only, run by the driver on what `mp::PLApproximate` returned) -/
 
